@@ -136,12 +136,14 @@ SYS_THOROUGH = SYS_QUICK + [
 def check_system(rep, cfg):
     tag = cfg['name']
     plane = ctrlplane.Plane(None)
-    with ctrlplane.installed(plane):
+    with ctrlplane.installed(plane), tankkit.backtrack_lemma():
         def harness(c):
             V = SymVars(c)
             c.assume_fractional_floors = True
+            c.resolve_quotients = True
             wn, x = tankkit.build(V, cfg)
             plane.policy = tankkit.make_policy(cfg, V.choice)
+            c.clock = wn
             res = plane.run(wn)
             return V, x, res
         n = 0
@@ -280,6 +282,7 @@ def run(rep, only=None):
     rep.bound('system (linear variant): tank area 50 m2 concrete; per-solve tank inflow forked from the listed signed sets; init/min/max level symbolic reals with min + 0.5 <= init <= max - 0.5; '
               '<= 2 (thorough 3) hydraulic steps; templates: link ending in / starting at the tank, additional CV pipe out of the tank')
     rep.bound('unit: symbolic previous head, inflow, diameter, elapsed time (cylinder); volume curve with 3 concrete points, symbolic level and inflow, dt in {1, 900, 3600}')
+    rep.assume('assume-guarantee: a symbolic TankLevelCondition backtrack b satisfies 0 <= b <= current step length (proved by C05 unit/*/backtrack + unit/*/euler)')
     rep.assume('contract H: closed links carry no flow; the head next to the tank is on the side the flow comes from')
     rep.assume('the real-valued time at which a level limit is crossed is not an exact integer number of seconds (there floor() is decided by float rounding, not by the real-arithmetic model)')
     tasks = [('unit', check_unit, ())]
